@@ -85,3 +85,18 @@ Theorem c20_trie_old_unsound : exists ts p i t,
   forallb trie_template_ok ts = true /\ In i (find true (build ts) p) /\ nth_error ts i = Some t /\ template_matches t p = false.
 Proof. exact trie_old_unsound. Qed.
 Print Assumptions c20_trie_old_unsound.
+
+(* ---- the strict parser (internal/httprule/parse.go, Model/Strict.v) ---- *)
+From GB Require Import Model.Strict Proofs.TemplateSoundProofs Proofs.StrictProofs.
+
+(* everything the strict parser accepts is a string of the strict template language, with exactly the structure it returns:
+   the text is "/" + the segments' texts joined by "/" (+ ":" verb), every segment text derives its segment (Rseg: "*",
+   "**", a non-empty literal of path characters, "{" field path [ "=" segments ] "}" with "{p}" short for "{p=*}"),
+   variables do NOT nest and hold only "*", literals and a final "**" (st_seg_ok), a multi segment is the last one
+   (multi_only_last), literals are neither "*" nor "**", the verb is a literal, and behind anything but a variable it is
+   what follows the LAST colon (no colon inside it; without a verb the last literal has no colon at all).  The proof
+   carries the tokenizer's state through the recursive descent ([shaped]): that '{' inside a variable cannot open another
+   one is a property of tokenize, exactly as the comment in parse.go claims. *)
+Theorem c20_strict_sound : forall s t, st_parse s = Some t -> StrictLang t s.
+Proof. exact st_parse_sound. Qed.
+Print Assumptions c20_strict_sound.
